@@ -463,7 +463,7 @@ class EvalMixin(object):
             elif isinstance(a, (Obj, Arr)) or isinstance(b, (Obj, Arr)):
                 r = a is b
             else:
-                r = a is b or (type(a) == type(b) and a == b and isinstance(a, (int, str)))
+                r = a is b or (type(a) == type(b) and a == b and isinstance(a, (int, str, Builtin, ClassRef, FuncRef)))
             return r if op == 'is' else not r
         if op in ('in', 'not_in'):
             r = self.contains(b, a)
